@@ -75,7 +75,7 @@ def c05_a(ctx):
                     is not None for (t, pol, _) in gs)
         missing = any((pol is False) and match(t, pattern('_n in _b')) is not None and
                       contains(t, 'context.pool.get_batch(*_)') for (t, pol, _) in gs)
-        present = any((pol is False) and match(t, pattern('not compiled_net.has_node(_n)'))
+        present = any(pol and match(t, pattern('compiled_net.has_node(_n)'))
                       is not None for (t, pol, _) in gs)
         if missing and present and c.args and ex.term(c.args[0])[0] == 'elem':
             ok = True
